@@ -5,7 +5,7 @@
 //   popload  <arch> <type#> <mode> <pol> <prior> <doc>   -> OK <value> | EXC:<code>
 //   validate <arch> <class#> <max> <pol> <doc>           -> OK <value> | VAL <path>:<msg>,..;.. <state|-> | EXC:<code>
 //
-// arch: json | mp | csv | xml (xml: implementation only, known-finding replay)    mode: - | c | o | u (MapLoadMode)    pol: two letters (mismatch, overflow; S = Skip, T = ThrowError)
+// arch: json | mp | csv | xml    mode: - | c | o | u (MapLoadMode)    pol: two letters (mismatch, overflow; S = Skip, T = ThrowError)
 // values / documents, one token:  n | t | f | i<decimal> | s<hex> | [x,..] | {k:x,..}  keys i<decimal> | s<hex>
 // The catalogues (type#, class#) are the same lists as type_catalogue / class_catalogue in coq/ArchCodec.v.
 #include "common.h"
@@ -200,27 +200,28 @@ static std::string to_csv(const Tree& t) {
 	}
 	return out;
 }
-// XML (implementation-only, for the replay of known finding F29; not part of the model): arrays
-// <array>, objects <object>, scalars <value>text</value>, null <value/>, members named by their key
+// XML: the naming convention of the model's xml_arch (coq/ArchModel.v xml_names; the library's writer names array items
+// the same way): an element that is not an object member is <value> (scalar, null), <array> or <object>; members are
+// named by their key (integer keys as k<i>: element names cannot start with a digit); null and the empty string are
+// child-less elements
 static void xml_text(const std::string& s, std::string& out) {
 	for (char c : s) { if (c == '<') out += "&lt;"; else if (c == '&') out += "&amp;"; else if (c == '>') out += "&gt;"; else out.push_back(c); }
 }
-static void to_xml(const Tree& t, const std::string& name, std::string& out) {
+static void to_xml(const Tree& t, const std::string* member, std::string& out) {
+	const std::string name = member ? *member : t.k == Tree::Arr ? "array" : t.k == Tree::Map ? "object" : "value";
 	switch (t.k) {
 	case Tree::Null: out += "<" + name + "/>"; break;
 	case Tree::Bool: out += "<" + name + ">" + (t.b ? "true" : "false") + "</" + name + ">"; break;
 	case Tree::Int: out += "<" + name + ">" + std::to_string(t.i) + "</" + name + ">"; break;
 	case Tree::Str: out += "<" + name + ">"; xml_text(t.s, out); out += "</" + name + ">"; break;
 	case Tree::Arr: {
-		const std::string n = name == "value" ? "array" : name;
-		out += "<" + n + ">";
-		for (auto& e : t.a) to_xml(e, "value", out);
-		out += "</" + n + ">"; break; }
+		out += "<" + name + ">";
+		for (auto& e : t.a) to_xml(e, nullptr, out);
+		out += "</" + name + ">"; break; }
 	case Tree::Map: {
-		const std::string n = name == "value" ? "object" : name;
-		out += "<" + n + ">";
-		for (auto& kv : t.m) to_xml(kv.second, kv.first.k == Tree::Int ? "k" + std::to_string(kv.first.i) : kv.first.s, out);
-		out += "</" + n + ">"; break; }
+		out += "<" + name + ">";
+		for (auto& kv : t.m) { const std::string key = kv.first.k == Tree::Int ? "k" + std::to_string(kv.first.i) : kv.first.s; to_xml(kv.second, &key, out); }
+		out += "</" + name + ">"; break; }
 	}
 }
 static std::string encode(const std::string& arch, const Tree& doc) {
@@ -228,7 +229,7 @@ static std::string encode(const std::string& arch, const Tree& doc) {
 	if (arch == "json") to_json(doc, out);
 	else if (arch == "mp" || arch == "mps") to_msgpack(doc, out);
 	else if (arch == "csv") out = to_csv(doc);
-	else if (arch == "xml") { out = "<?xml version=\"1.0\"?>"; to_xml(doc, "value", out); }
+	else if (arch == "xml") { out = "<?xml version=\"1.0\"?>"; to_xml(doc, nullptr, out); }
 	else throw Syntax{"arch"};
 	return out;
 }
